@@ -626,10 +626,11 @@ Fixpoint calls_after_suspend (cs : list callname) : list callname :=
 
 (* Close on the input goroutine (its guard passed) up to the point where Suspend waits for the parser:
    the flag is set here when the code sets it before calling Suspend ([close_flag_early], translated) *)
-Definition close_begin (o : opts) (x : sst) : sst * list fname :=
+Definition close_begin_with (early : bool) (o : opts) (x : sst) : sst * list fname :=
   let m0 := run_calls (calls_before_suspend close_calls) o (s_fl (x_m x)) (x_m x) in
   let '(ds, m1) := run_pre (before_wait suspend_script) [] m0 in
-  (mkS m1 (x_shape_next x) (x_shape_last x) (x_gnext x) (x_glast x) (x_suspended x) (close_flag_early || x_closed x), ds).
+  (mkS m1 (x_shape_next x) (x_shape_last x) (x_gnext x) (x_glast x) (x_suspended x) (early || x_closed x), ds).
+Definition close_begin := close_begin_with close_flag_early.
 
 (* ... and from there, once the terminal has answered *)
 Definition close_end (o : opts) (x : sst) (ds : list fname) : sst :=
@@ -665,14 +666,16 @@ Fixpoint ops_state (o : opts) (ops : list op) (x : sst) : sst :=
 (* the chunks of: the signal / panic (until its Close waits), [during] Close calls of the application,
    the terminal's answer (the first Close runs to its end), [after] more Close calls.  None: the state is
    not a running one (outside this scenario class; shutdown while suspended is the recorded finding) *)
-Definition overlap_tail (o : opts) (x : sst) (during after : nat) : option (list (Z * list otok)) :=
+Definition overlap_tail_with (early : bool) (o : opts) (x : sst) (during after : nat) : option (list (Z * list otok)) :=
   if s_hung (x_m x) || x_suspended x || x_closed x then None else
-  let '(y, ds) := close_begin o (clear_out x) in
+  let '(y, ds) := close_begin_with early o (clear_out x) in
   let '(dur, (y1, blocked)) := app_closes o during y in
   let z := close_end o (clear_out y1) ds in
   let rel := (if s_hung (x_m z) then 2 else 0, s_out (x_m z)) in
   Some ((0, s_out (x_m y)) :: dur ++ rel ::
         (if blocked then idle_chunks after else run_ops o (repeat OpClose after) z)).
+
+Definition overlap_tail := overlap_tail_with close_flag_early.
 
 Definition overlap_chunks (o : opts) (det : flags) (d : data) (rows cols : Z) (ops : list op) (during after : nat)
   : option (list (Z * list otok)) :=
